@@ -21,7 +21,7 @@ from ..absint import Val, enum_table, run, variant, vstr
 from ..flow import arg_origins
 from ..mir import try_edges
 from ..util import (agg_assigns, call_true_false_edges, polls, result_return_kinds, unreachable_without, where)
-from .http_common import GET, POST, SEND, bounded_loop_rule, post_structure
+from .http_common import GET, POST, SEND, bounded_loop_rule, fresh_nonce_rule, post_structure
 
 LEVEL = "other"
 TECHNIQUE = ("table extraction by abstract interpretation of the classification functions over all enum variants / oracle "
@@ -191,3 +191,4 @@ def check(ctx):
         ctx.require(R6, c.bb not in after, c.where(), "every send -> send cycle crosses update_nonce(endpoint, &response)", [POST, "retry-stale-nonce"])
         after = pb.reachable_after(c.bb, removed_nodes=[u.bb for u in builder])
         ctx.require(R6, c.bb not in after, c.where(), "every send -> send cycle re-runs the data builder (fresh JWS)", [POST, "retry-same-body"])
+    fresh_nonce_rule(ctx, R6)
